@@ -1,14 +1,19 @@
 /-
-  C03 — Parser returns exactly the statements written, layout-insensitively.   (partial)
-  Proved for every input: the pieces of layout-insensitivity that are decided inside the lexer and parser —
-  keywords are recognised by their upper-cased spelling only, `x`/`X` and `R`/`r` prefixes are interchangeable, blanks
-  and tabs between tokens only shift spans, comments never reach the parser, a decimal / hex / register token standing
-  alone denotes its written value (C05) — and that the statement span is made of token boundaries inside the text.
-  Not proved: the composition "render(statements) parses to statements" for whole programs; that is what the
-  correspondence check exercises (generated statement lists, randomised layout, implementation = model = generated).
+  C03 — Parser returns exactly the statements written, layout-insensitively.   (one statement: proved; programs: checked)
+  Proved for the model, for any single statement: the parse result is determined by the token values (`parse_of_lex`);
+  any text made of pieces that are lexed as the statement's tokens — mnemonics in any letter case, `R`/`r` registers with
+  leading zeros, literals as `n`, `#n`, `-n`, `xH`, … — separated by arbitrary runs of blanks and tabs (none needed
+  around commas), with blanks before and after, parses to exactly that statement (`layout_insensitive`); in particular
+  the canonical text `Display` writes does (`canonical_text`, C36).  Also: keyword recognition depends only on the
+  upper-cased spelling, `x`/`X` and `R`/`r` prefixes are interchangeable, blanks only shift spans, comments never reach
+  the parser and stop before the line end, error spans lie inside the text (C04).
+  Not proved: programs of several statements (line ends, CRLF, comments between statements, blank lines, colons after
+  labels, labels on their own lines) and the statement spans; these are what the correspondence check exercises
+  (generated statement lists, randomised layout, implementation = model = generated, two layouts per list).
 -/
 import Lc3V.Lemmas.ParseSpan
 import Lc3V.Lemmas.LexTok
+import Lc3V.Lemmas.Layout
 set_option linter.unusedSimpArgs false
 namespace Lc3V.C03
 open Lc3V
@@ -99,8 +104,52 @@ theorem comment_token (body rest : List Char) (hb : ∀ c ∈ body, c ≠ '\n') 
 theorem spans_inside (src : List Char) (e : ParseErr) (h : parseAst src = .error e) :
     e.span.1 ≤ e.span.2 ∧ e.span.2 ≤ blen src := parseAst_span src e h
 
+/-- the parse result depends only on the token values -/
+theorem result_determined_by_tokens (s : Stmt) (text : List Char) (ts : List SpTok) (hlex : lex text = .ok ts)
+    (hvals : ts.map (·.tok) = labelToks s.labels ++ kindToks s.nucleus)
+    (hcc : ∀ cc o, s.nucleus = .instr (.br cc o) → cc ≠ 0) (hb : ∀ n, s.nucleus = .directive (.blkw n) → n ≠ 0) :
+    ∃ s', parseAst text = .ok [s'] ∧ s'.labels.map (·.name) = s.labels.map (·.name) ∧ s'.nucleus.erase = s.nucleus.erase :=
+  parse_of_lex s text ts hlex hvals hcc hb
+
+/-- layout insensitivity for one statement: any spelling of the tokens, any blanks and tabs around them -/
+theorem layout_insensitive (s : Stmt) (lead : List Char) (hlead : IsGap lead) (as : List (Atom × List Char)) (hseq : GapSeqOk as)
+    (hok : ∀ a ∈ as, a.1.Ok ∧ IsGap a.2) (hvals : as.map (·.1.tok) = labelToks s.labels ++ kindToks s.nucleus)
+    (hcc : ∀ cc o, s.nucleus = .instr (.br cc o) → cc ≠ 0) (hb : ∀ n, s.nucleus = .directive (.blkw n) → n ≠ 0) :
+    ∃ s', parseAst (lead ++ renderGaps as) = .ok [s'] ∧ s'.labels.map (·.name) = s.labels.map (·.name) ∧ s'.nucleus.erase = s.nucleus.erase :=
+  parse_layout s lead hlead as hseq hok hvals hcc hb
+
+/-- the canonical text parses to the statement -/
+theorem canonical_text (s : Stmt) (h : StmtOk s) :
+    ∃ s', parseAst (showStmt s) = .ok [s'] ∧ s'.labels.map (·.name) = s.labels.map (·.name) ∧ s'.nucleus.erase = s.nucleus.erase :=
+  parse_print s h
+
+/-- the premises of `layout_insensitive` are met by a non-canonical layout: ` aDd\tr1 ,R02,  -3 ` for `ADD R1, R2, #-3` -/
+example : ∃ s', parseAst ([' '] ++ renderGaps
+      [(kwAtomS ['a', 'D', 'd'] .ADD, ['\t']), (regAtomS 'r' ['1'] 1, [' ']), (commaAtom, []), (regAtomS 'R' ['0', '2'] 2, []),
+       (commaAtom, [' ', ' ']), (negAtomS ['3'] 3, [' '])]) = .ok [s'] ∧
+    s'.labels.map (·.name) = [] ∧ s'.nucleus.erase = StmtKind.erase (.instr (.add 1 2 (.imm (-3)))) := by
+  apply parse_layout ⟨[], .instr (.add 1 2 (.imm (-3))), (0, 0)⟩
+  · intro c hc; simp at hc; exact Or.inl hc
+  · exact ⟨Or.inl (by decide), Or.inl (by decide), Or.inr (Or.inr ⟨rfl, rfl⟩), Or.inr (Or.inl ⟨[], rfl⟩), Or.inl (by decide), trivial⟩
+  · intro a ha
+    simp only [List.mem_cons, List.mem_nil_iff, or_false] at ha
+    rcases ha with rfl | rfl | rfl | rfl | rfl | rfl
+    · exact ⟨kwAtomS_ok _ _ (by decide), by intro c hc; simp at hc; exact Or.inr hc⟩
+    · exact ⟨regAtomS_ok 'r' ['1'] 1 (Or.inr rfl) (by simp) (by intro c hc; simp at hc; subst hc; exact ⟨by decide, by decide⟩) (by decide) (by omega),
+        by intro c hc; simp at hc; exact Or.inl hc⟩
+    · exact ⟨commaAtom_ok, by intro c hc; cases hc⟩
+    · exact ⟨regAtomS_ok 'R' ['0', '2'] 2 (Or.inl rfl) (by simp) (by intro c hc; simp at hc; rcases hc with rfl | rfl <;> exact ⟨by decide, by decide⟩) (by decide) (by omega),
+        by intro c hc; cases hc⟩
+    · exact ⟨commaAtom_ok, by intro c hc; simp at hc; exact Or.inl hc⟩
+    · exact ⟨negAtomS_ok ['3'] 3 (by simp) (by intro c hc; simp at hc; subst hc; exact ⟨by decide, by decide⟩) (by decide) (by omega),
+        by intro c hc; simp at hc; exact Or.inl hc⟩
+  · decide
+  · intro cc o h; cases h
+  · intro n h; cases h
+
 def obligations : List Lean.Name :=
   [``keyword_case_insensitive, ``prefix_case_irrelevant, ``lexAll_shift, ``leading_blank, ``comments_dropped, ``comment_token,
-   ``spans_inside]
+   ``spans_inside, ``result_determined_by_tokens, ``layout_insensitive, ``canonical_text, ``Lc3V.lex_gaps, ``Lc3V.kwAtomS_ok,
+   ``Lc3V.regAtomS_ok, ``Lc3V.decAtomS_ok, ``Lc3V.negAtomS_ok]
 
 end Lc3V.C03
